@@ -74,11 +74,13 @@ def run_cases(run, modname, fname, cases, hash_seeds=(0,), per_case_timeout=60, 
             os.environ.pop("PYTHONHASHSEED", None)
         else:
             os.environ["PYTHONHASHSEED"] = old
+        crashes = []
         for it in results:
             for batch in it:
                 for r in batch:
                     if r.get("crash"):
-                        raise RuntimeError("bounded engine: case function crashed:\n" + r["crash"])
+                        crashes.append(r["crash"])
+                        continue
                     run.count(r.get("n", 0))
                     for k in r.get("keys", []):
                         run.nontrivial.add(k)
@@ -90,6 +92,12 @@ def run_cases(run, modname, fname, cases, hash_seeds=(0,), per_case_timeout=60, 
                         run.violation(v["obligation"], v["what"], rp, signature=v.get("signature"))
                     for a, b in r.get("undecided", []):
                         run.mark_undecided(a, b)
+        if crashes:
+            # a case function that crashes is a checker error (exit 3) - unless other cases of the same run found violations, which
+            # are then reported (exit 1) with the crash recorded in the evidence notes
+            if not run.violations:
+                raise RuntimeError(f"bounded engine: {len(crashes)} case function(s) crashed:\n" + crashes[0])
+            run.notes.append(f"{len(crashes)} case function(s) crashed in the bounded engine: " + crashes[0][:400])
     finally:
         for p in pools:
             p.terminate()
